@@ -297,6 +297,13 @@ class StructProp(Prop):
             return '(ph b%s %s)' % (p.hex(), C02.EMPTY), p
         if x < 0.6: return '(ph - %s)' % C02.EMPTY, b''
         return '(ph - %s)' % g.hdr(0, wild=False, empty_p=0.0), None
+    # --- wire sub-stream (seeded C03-r4 / C04-r4 / C05-r4): the value is *decoded from bytes* by the implementation, then the helper
+    # runs on what was decoded; the oracle is the structure over the protected bytes that were on the wire, at every carrier.
+    def wire_ph(self, g, r):
+        p = bytes.fromhex(r.choice(NONCANON_PH)) if r.random() < 0.6 else g.venc(g.header(1))
+        return b'' if r.random() < 0.1 else p
+    def wire_enc(self, g, r, v):
+        return refcbor.encode(v) if r.random() < 0.6 else g.venc(v)
     def check_bytes(self, o, impl):
         want = o['meta'].get('want')
         if want is None: return None
@@ -347,7 +354,57 @@ class C03(StructProp):
                 ops.append(mk('tbs sign %s b%s (sig %s %s b)' % (m, aad.hex(), sigs[idx][0], C02.EMPTY), want=want, k='sign'))
                 wantd = spec_struct(b'Signature', [bb, sb, aad, pl]).hex() if bb is not None and sb is not None else None
                 ops.append(mk('verifyd sign %s %d b%s b%s vok' % (m, idx, pl.hex(), aad.hex()), want=None if emb else wantd, expect_panic=emb, k='sign-detached'))
+        B = lambda b: ('bytes', b); I = lambda i: ('int', i)
+        for _ in range(budget(tier, 400, 8000)):
+            p = self.wire_ph(g, r); aad = lenbytes(r); pl = lenbytes(r); c = r.random()
+            def sigv(depth):
+                sp = self.wire_ph(g, r)
+                un = []
+                nested = None
+                if depth > 0 and r.random() < 0.4:
+                    nested = [sigv(depth - 1) for _ in range(r.choice([1, 2]))]
+                    un = [(I(7), nested[0][0] if len(nested) == 1 and r.random() < 0.6 else ('array', [x[0] for x in nested]))]
+                return (('array', [B(sp), ('map', un), B(b'\x05')]), sp, nested)
+            if c < 0.3:
+                v = ('array', [B(p), ('map', []), B(pl), B(b'\x01\x02')])
+                ops.append(mk('dec CoseSign1 b' + self.wire_enc(g, r, v).hex(), k='wire', w='sign1', prot=p.hex(), aad=aad.hex(), pl=pl.hex()))
+            elif c < 0.6:
+                sigs = [sigv(0) for _ in range(r.choice([1, 2, 3]))]
+                v = ('array', [B(p), ('map', []), B(pl), ('array', [x[0] for x in sigs])])
+                ops.append(mk('dec CoseSign b' + self.wire_enc(g, r, v).hex(), k='wire', w='sign', prot=p.hex(), aad=aad.hex(), pl=pl.hex(), sprots=[x[1].hex() for x in sigs]))
+            else:
+                # counter-signatures (label 7): one bare or a list, possibly carrying counter-signatures of their own
+                css = [sigv(2) for _ in range(r.choice([1, 1, 2]))]
+                hv = ('map', [(I(7), css[0][0] if len(css) == 1 and r.random() < 0.6 else ('array', [x[0] for x in css]))])
+                def tree(x): return [x[1].hex(), [tree(y) for y in (x[2] or [])]]
+                meta = dict(k='wire', prot=p.hex(), aad=aad.hex(), pl=pl.hex(), cstree=[tree(x) for x in css])
+                if r.random() < 0.5: ops.append(mk('dec Header b' + self.wire_enc(g, r, hv).hex(), w='cs-header', **meta))
+                else:
+                    v = ('array', [B(p), hv, B(pl), B(b'\x01')])
+                    ops.append(mk('dec CoseSign1 b' + self.wire_enc(g, r, v).hex(), w='cs-sign1', **meta))
         return ops
+    def followups(self, ops, impl):
+        out = []
+        for o, a in zip(ops, impl):
+            m = o['meta']
+            if m.get('k') != 'wire' or not a.startswith('ok '): continue
+            f = parse(a)[1]; p = bytes.fromhex(m['prot']); aad = bytes.fromhex(m['aad']); pl = bytes.fromhex(m['pl'])
+            if m['w'] == 'sign1':
+                out.append(mk('verify sign1 %s b%s vok' % (render(f), m['aad']), want=spec_struct(b'Signature1', [p, aad, pl]).hex(), k='wire-sign1', src=o['op']))
+            elif m['w'] == 'sign':
+                for i, sp in enumerate(m['sprots']):
+                    out.append(mk('verify sign %s %d b%s vok' % (render(f), i, m['aad']), want=spec_struct(b'Signature', [p, bytes.fromhex(sp), aad, pl]).hex(), k='wire-sign', src=o['op']))
+            else:
+                hdr = f if m['w'] == 'cs-header' else f[2]
+                def walk(h, tr):
+                    cs = [x for x in h[7][1:]]
+                    if len(cs) != len(tr): return
+                    for sig, (sp, sub) in zip(cs, tr):
+                        out.append(mk('sigstruct CounterSignature (ph b%s %s) %s b%s b%s' % (m['prot'], C02.EMPTY, render(sig[1]), m['aad'], m['pl']),
+                                      want=spec_struct(b'CounterSignature', [p, bytes.fromhex(sp), aad, pl]).hex(), k='wire-countersig', src=o['op']))
+                        walk(sig[2], sub)
+                walk(hdr, m['cstree'])
+        return out
 
 @register
 class C04(StructProp):
@@ -368,7 +425,27 @@ class C04(StructProp):
                     hb = bf[len('(ph - '):-1]
                     bops = '(protected %s) ' % hb + ('(payload b%s) ' % pl.hex() if has else '') + '(%s b%s echo)' % (r.choice(['create_tag', 'try_create_tag']), aad.hex())
                     ops.append(mk('build Cose%sBuilder %s' % ('Mac' if kind == 'mac' else 'Mac0', bops), k='build-' + kind, want_call=want if has else None, expect_panicx=not has))
+        B = lambda b: ('bytes', b)
+        for _ in range(budget(tier, 400, 8000)):
+            p = self.wire_ph(g, r); aad = lenbytes(r); pl = lenbytes(r)
+            rcp = ('array', [B(self.wire_ph(g, r)), ('map', []), B(b'\x09')])
+            if r.random() < 0.5:
+                v = ('array', [B(p), ('map', []), B(pl), B(b'\x0a\x0b')]); t = 'CoseMac0'
+            else:
+                v = ('array', [B(p), ('map', []), B(pl), B(b'\x0a\x0b'), ('array', [rcp] * r.choice([0, 1, 2]))]); t = 'CoseMac'
+            tagged = r.random() < 0.3
+            b = self.wire_enc(g, r, ('tag', 17 if t == 'CoseMac0' else 97, v) if tagged else v)
+            ops.append(mk('%s %s b%s' % ('dect' if tagged else 'dec', t, b.hex()), k='wire', w=t, prot=p.hex(), aad=aad.hex(), pl=pl.hex()))
         return ops
+    def followups(self, ops, impl):
+        out = []
+        for o, a in zip(ops, impl):
+            m = o['meta']
+            if m.get('k') != 'wire' or not a.startswith('ok '): continue
+            f = parse(a)[1]; kind = 'mac0' if m['w'] == 'CoseMac0' else 'mac'
+            want = spec_struct(MACCTX[m['w']], [bytes.fromhex(m['prot']), bytes.fromhex(m['aad']), bytes.fromhex(m['pl'])]).hex()
+            out.append(mk('verify %s %s b%s vok' % (kind, render(f), m['aad']), want=want, k='wire-' + kind, src=o['op']))
+        return out
     def impl_pred(self, o, impl):
         if o['meta'].get('expect_panicx') is True and not impl.startswith('panic'): return 'tag creation without payload was not refused'
         wc = o['meta'].get('want_call')
@@ -407,7 +484,45 @@ class C05(StructProp):
                     kind = r.choice(['Encrypt', 'Encrypt0'])
                     w = spec_struct(kind.encode(), [bb, aad]).hex() if bb is not None else None
                     ops.append(mk('build Cose%sBuilder (protected %s) (%s b0909 b%s cat)' % (kind, hb, meth, aad.hex()), k='build-enc', want_call=w))
+        B = lambda b: ('bytes', b)
+        for _ in range(budget(tier, 500, 10000)):
+            p = self.wire_ph(g, r); aad = lenbytes(r)
+            def rcpv(depth):
+                rp = self.wire_ph(g, r); sub = []
+                if depth > 0 and r.random() < 0.5: sub = [rcpv(depth - 1) for _ in range(r.choice([1, 2]))]
+                return (('array', [B(rp), ('map', []), B(b'\x09')] + ([('array', [x[0] for x in sub])] if sub else [])), rp, sub)
+            def tree(x): return [x[1].hex(), [tree(y) for y in x[2]]]
+            c = r.random()
+            if c < 0.25:
+                v = ('array', [B(p), ('map', []), B(b'\x01\x02')]); t = 'CoseEncrypt0'; rs = []
+            elif c < 0.6:
+                rs = [rcpv(2) for _ in range(r.choice([1, 2]))]
+                v = ('array', [B(p), ('map', []), B(b'\x01\x02'), ('array', [x[0] for x in rs])]); t = 'CoseEncrypt'
+            elif c < 0.8:
+                rs = [rcpv(1) for _ in range(r.choice([1, 2]))]
+                v = ('array', [B(p), ('map', []), B(b'\x07'), B(b'\x0a'), ('array', [x[0] for x in rs])]); t = 'CoseMac'
+            else:
+                one = rcpv(2); v = one[0]; t = 'CoseRecipient'; rs = [one]
+            ops.append(mk('dec %s b%s' % (t, self.wire_enc(g, r, v).hex()), k='wire', w=t, prot=p.hex(), aad=aad.hex(), rtree=[tree(x) for x in rs]))
         return ops
+    def followups(self, ops, impl):
+        out = []
+        for o, a in zip(ops, impl):
+            m = o['meta']
+            if m.get('k') != 'wire' or not a.startswith('ok '): continue
+            f = parse(a)[1]; aad = bytes.fromhex(m['aad']); t = m['w']
+            if t in ('CoseEncrypt0', 'CoseEncrypt'):
+                kind = 'enc0' if t == 'CoseEncrypt0' else 'enc'
+                out.append(mk('decrypt %s %s b%s cat' % (kind, render(f), m['aad']), want=spec_struct(ENCCTX[t], [bytes.fromhex(m['prot']), aad]).hex(), k='wire-' + kind, src=o['op']))
+            def walk(rforms, tr, ctx):
+                if len(rforms) != len(tr): return
+                for rf, (rp, sub) in zip(rforms, tr):
+                    out.append(mk('decrypt rcp %s %s b%s cat' % (render(rf), ctx, m['aad']), want=spec_struct(ENCCTX[ctx], [bytes.fromhex(rp), aad]).hex(), k='wire-rcp', src=o['op']))
+                    walk(rf[4][1:], sub, 'RecRecipient')
+            if t == 'CoseEncrypt': walk(f[4][1:], m['rtree'], 'EncRecipient')
+            elif t == 'CoseMac': walk(f[5][1:], m['rtree'], 'MacRecipient')
+            elif t == 'CoseRecipient': walk([f], m['rtree'], r_ctx(o['op']))
+        return out
     def impl_pred(self, o, impl):
         if o['meta'].get('expect_panicx') is True and not impl.startswith('panic'): return 'non-recipient context was not refused'
         wc = o['meta'].get('want_call')
@@ -415,5 +530,8 @@ class C05(StructProp):
             m = re.search(r'\(calls \(b[0-9a-f]* b([0-9a-f]*)\)\)', impl)
             if not m or m.group(1) != wc: return 'cipher closure received bytes other than Enc_structure'
         return super().impl_pred(o, impl)
+
+def r_ctx(op):
+    return ['EncRecipient', 'MacRecipient', 'RecRecipient'][sum(op.encode()) % 3]
 
 from props_streams2 import *   # noqa
